@@ -1,0 +1,119 @@
+//! Seams and read-only accessors for verification harnesses.
+//! Compiled only with `--cfg inkayaku_verif`; without the flag none of this exists.
+
+use std::cell::RefCell;
+use std::sync::Mutex;
+use std::time::Duration;
+
+use inkayaku_board::Bitboard;
+use inkayaku_board::constants::ZobristHash;
+use inkayaku_uci::Score;
+
+use crate::engine::heuristic::Heuristic;
+use crate::engine::heuristic::simple::SimpleHeuristic;
+use crate::engine::search::EngineOptions;
+use crate::engine::table::HashTable;
+use crate::engine::zobrist_history::ZobristHistory;
+
+// ---- evaluation ---------------------------------------------------------------------------
+
+/// white-centric static evaluation as the search uses it for positions that have a legal move
+pub fn static_eval(bitboard: &Bitboard) -> i32 {
+    SimpleHeuristic.evaluate(bitboard, bitboard.calculate_zobrist_pawn_hash(), true)
+}
+
+/// white-centric value of a position without legal moves (mate or stalemate)
+pub fn terminal_eval(bitboard: &Bitboard) -> i32 {
+    SimpleHeuristic.evaluate(bitboard, bitboard.calculate_zobrist_pawn_hash(), false)
+}
+
+pub fn is_checkmate_value(value: i32) -> bool {
+    SimpleHeuristic.is_checkmate(value)
+}
+
+pub fn score_from_value(value: i32, bitboard: &Bitboard) -> Score {
+    SimpleHeuristic.score_from_value(value, bitboard)
+}
+
+pub fn win_score() -> i32 { SimpleHeuristic.win_score() }
+
+pub fn draw_score() -> i32 { SimpleHeuristic.draw_score() }
+
+pub fn max_half_moves() -> u32 { <SimpleHeuristic as Heuristic>::MAX_HALF_MOVES }
+
+pub fn contempt() -> i32 { EngineOptions::default().contempt_factor }
+
+// ---- repetition history -------------------------------------------------------------------
+
+pub struct History(ZobristHistory);
+
+impl History {
+    pub fn new() -> Self { Self(ZobristHistory::default()) }
+    pub fn set(&mut self, index: u16, hash: ZobristHash) { self.0.set(index, hash); }
+    pub fn count_repetitions(&self, start_index: u16, halfmove_clock: u16) -> usize { self.0.count_repetitions(start_index, halfmove_clock) }
+}
+
+// ---- keyed table --------------------------------------------------------------------------
+
+pub struct Table(HashTable<ZobristHash, u64>);
+
+impl Table {
+    pub fn new(capacity: usize) -> Self { Self(HashTable::new(capacity)) }
+    pub fn put(&mut self, key: ZobristHash, value: u64) { self.0.verif_put(key, value); }
+    pub fn get(&self, key: ZobristHash) -> Option<u64> { self.0.verif_get(key) }
+    pub fn clear(&mut self) { self.0.verif_clear(); }
+    pub fn len(&self) -> usize { self.0.verif_len() }
+    pub fn load_factor(&self) -> f32 { self.0.verif_load_factor() }
+    /// the implementation's full state: insertion queue in order + map sorted by key
+    pub fn snapshot(&self) -> (Vec<ZobristHash>, Vec<(ZobristHash, u64)>) { self.0.verif_snapshot() }
+}
+
+// ---- search seams -------------------------------------------------------------------------
+
+/// Environment of one search thread, owned by the harness.
+pub trait SearchHook: Send {
+    /// Called where the search decides whether to poll its command channel.
+    /// `None` = original rule (every 100 000 negamax nodes).
+    fn poll(&mut self, negamax_nodes: u64) -> Option<bool>;
+    /// Called wherever the search reads its clock. `None` = real elapsed time.
+    fn elapsed(&mut self, total_nodes: u64) -> Option<Duration>;
+    /// The search thread's own position, published before a search starts and before bestmove is sent.
+    fn board(&mut self, when: &'static str, fen: &str);
+}
+
+static PENDING: Mutex<Option<Box<dyn SearchHook>>> = Mutex::new(None);
+
+thread_local! {
+    static LOCAL: RefCell<Option<Box<dyn SearchHook>>> = RefCell::new(None);
+}
+
+/// Offer a hook to the next search thread that starts. Create engines one at a time and wait for
+/// `hook_claimed()` before offering the next one.
+pub fn offer_hook(hook: Box<dyn SearchHook>) {
+    *PENDING.lock().unwrap() = Some(hook);
+}
+
+pub fn hook_claimed() -> bool {
+    PENDING.lock().unwrap().is_none()
+}
+
+pub(crate) fn claim() {
+    let hook = PENDING.lock().unwrap().take();
+    LOCAL.with(|local| *local.borrow_mut() = hook);
+}
+
+pub(crate) fn poll(negamax_nodes: u64) -> Option<bool> {
+    LOCAL.with(|local| local.borrow_mut().as_mut().and_then(|hook| hook.poll(negamax_nodes)))
+}
+
+pub(crate) fn elapsed(total_nodes: u64) -> Option<Duration> {
+    LOCAL.with(|local| local.borrow_mut().as_mut().and_then(|hook| hook.elapsed(total_nodes)))
+}
+
+pub(crate) fn board(when: &'static str, bitboard: &Bitboard) {
+    LOCAL.with(|local| {
+        if let Some(hook) = local.borrow_mut().as_mut() {
+            hook.board(when, &inkayaku_core::fen::Fen::from(bitboard).fen);
+        }
+    });
+}
